@@ -210,7 +210,13 @@ func main() {
 		if res.Violation == nil || res.Violation.Invariant != v.Violation.Invariant || res.Violation.Signature != v.Violation.Signature || res.LogHash != v.LogHash {
 			// never reported: a violation whose replay file does not reproduce it exactly in a fresh process
 			// (the code under test behaves nondeterministically there, or the harness does)
-			notRepro = append(notRepro, fmt.Sprintf("%s (got %+v hash %.12s, want %s/%s hash %.12s)", v.Replay, res.Violation, res.LogHash, v.Violation.Invariant, v.Violation.Signature, v.LogHash))
+			nr := fmt.Sprintf("%s (got %+v hash %.12s, want %s/%s hash %.12s)", v.Replay, res.Violation, res.LogHash, v.Violation.Invariant, v.Violation.Signature, v.LogHash)
+			if isKnown(v.Violation) != nil {
+				// an instance of a listed finding: nothing new would be reported either way
+				fmt.Printf("NOT-REPORTED (instance of a known finding, replay does not reproduce exactly): %s\n", nr)
+				continue
+			}
+			notRepro = append(notRepro, nr)
 			continue
 		}
 		if f := isKnown(v.Violation); f != nil {
